@@ -104,6 +104,7 @@ fn main() {
         "serde" => { let v = unhex(&args[2]); match bounded::serde_check(&v) { Some(d) => { println!("DISAGREE {}", d); std::process::exit(1); } None => println!("AGREE") } }
         "likely" => { let v = unhex(&args[2]); match bounded::likely_check(&String::from_utf8_lossy(&v)) { Some(d) => { println!("DISAGREE {}", d); std::process::exit(1); } None => println!("AGREE") } }
         "super" => { let v = unhex(&args[2]); match bounded::super_check(&v) { Some(d) => { println!("DISAGREE {}", d); std::process::exit(1); } None => println!("AGREE") } }
+        "ord" => { let v = unhex(&args[2]); match bounded::ord_replay(&v) { Some(d) => { println!("DISAGREE {}", d); std::process::exit(1); } None => println!("AGREE") } }
         "fromparts" => { let v = unhex(&args[2]); match bounded::fromparts_replay(&v) { Some(d) => { println!("DISAGREE {}", d); std::process::exit(1); } None => println!("AGREE") } }
         "rawrt" => {
             // C17 / C12: two subtags of one type: integer round trip through the unchecked constructor, injectivity, == / Ord vs text
